@@ -758,6 +758,61 @@ def desugar_let_chains(text, log, where):
         log.append(("R3", where, "let-chain of %d conditions desugared" % len(conds)))
 
 
+def desugar_inclusive_range_for(text, log, where, both=False):
+    """R21: `for PAT in A..=B { BODY }` (integer range, BODY without `continue`/`break`) -> the loop it abbreviates:
+    `{ let verif_lo = A; let verif_hi = B; if verif_lo <= verif_hi { let mut verif_i = verif_lo; loop { let PAT = verif_i; BODY
+       if verif_i == verif_hi { break; } verif_i += 1; } } }`
+    Exact RangeInclusive semantics: both ends evaluated once, every value from A to B visited in order, nothing when A > B, and no
+    overflow when B is the type's maximum (the increment is skipped after the last value).  This vstd has no ghost iterator for
+    RangeInclusive.  Enabled by `@@ set rangeincl loop`."""
+    while True:
+        toks = lex(text)
+        hit = None
+        for i, t in enumerate(toks):
+            if not (t.kind == "id" and t.text == "for"):
+                continue
+            j = i + 1
+            while j < len(toks) and not (toks[j].kind == "id" and toks[j].text == "in"):
+                if toks[j].text in OPEN:
+                    j = match_close(toks, j)
+                j += 1
+            if j >= len(toks):
+                continue
+            k = j + 1
+            dots = None
+            while k < len(toks) and toks[k].text != "{":
+                if toks[k].text in ("(", "["):
+                    k = match_close(toks, k)
+                elif toks[k].text == "..=" or (both and toks[k].text == ".."):
+                    dots = k
+                k += 1
+            if k >= len(toks) or dots is None:
+                continue
+            bclose = match_close(toks, k)
+            inner = toks[k + 1:bclose]
+            if any(x.kind == "id" and x.text in ("continue", "break") for x in inner):
+                continue
+            hit = (i, j, dots, k, bclose)
+            break
+        if hit is None:
+            return text
+        i, j, dots, k, bclose = hit
+        pat = text[toks[i].end:toks[j].start].strip()
+        a = text[toks[j].end:toks[dots].start].strip()
+        b = text[toks[dots].end:toks[k].start].strip()
+        body = text[toks[k].end:toks[bclose].start]
+        if toks[dots].text == "..=":
+            repl = ("{ let verif_lo = %s; let verif_hi = %s; if verif_lo <= verif_hi { let mut verif_i = verif_lo; loop { let %s = verif_i;%s"
+                    "if verif_i == verif_hi { break; } verif_i += 1; } } }" % (a, b, pat, body))
+        else:
+            # `both`: the half-open range in the same shape (so that a loop contract written for `..=` judges `..` instead of losing
+            # its anchor): verif_i < verif_hi inside the loop, hence verif_i + 1 cannot overflow
+            repl = ("{ let verif_lo = %s; let verif_hi = %s; if verif_lo < verif_hi { let mut verif_i = verif_lo; loop { let %s = verif_i;%s"
+                    "if verif_i + 1 == verif_hi { break; } verif_i += 1; } } }" % (a, b, pat, body))
+        text = text[:toks[i].start] + repl + text[toks[bclose].end:]
+        log.append(("R21", where, "for %s in %s%s%s desugared into a loop" % (pat, a, toks[dots].text, b)))
+
+
 def eliminate_tail_continue(text, log, where):
     """R20: inside a `for` body, a `continue` that is the last thing executed on its path through the body (tail position:
     last statement of the body, recursively through trailing if/else branches and match arms) is replaced by the empty
@@ -1225,9 +1280,10 @@ def process_fn(u, fnpath, text, log, origin, canary=None):
     """apply R1,R2,R4,substs; splice spec/loop/hints.  returns new text and clause line info"""
     settings = u.settings
     # per-function override: `@@ set format@<fnpath> keep|stub|stubdrop`
-    if ("format@" + fnpath) in settings:
+    over = {k.split("@", 1)[0]: v for k, v in settings.items() if k.endswith("@" + fnpath)}
+    if over:
         settings = dict(settings)
-        settings["format"] = settings["format@" + fnpath]
+        settings.update(over)
     text = rewrite_quals(text, log, fnpath)
     text = demut_params(text, log, fnpath)
     text = rewrite_macros(text, log, fnpath, settings)
@@ -1245,6 +1301,8 @@ def process_fn(u, fnpath, text, log, origin, canary=None):
         text = rebind_self(text, log, fnpath)
     if settings.get("letchains") == "nest":
         text = desugar_let_chains(text, log, fnpath)
+    if settings.get("rangeincl") in ("loop", "both"):
+        text = desugar_inclusive_range_for(text, log, fnpath, both=(settings.get("rangeincl") == "both"))
     if settings.get("tailcontinue") == "drop":
         text = eliminate_tail_continue(text, log, fnpath)
     text = apply_substs(u, fnpath, text, log)
@@ -1383,6 +1441,7 @@ class Assembler:
         self.emit(body, origin, fnpath)
         for c in self.u.canaries:
             if c["fn"] == fnpath:
+                c["used"] = True
                 cname = fnpath.split("::")[-1] + "__canary%d" % c["line"]
                 ctext = process_fn(self.u, fnpath, text, [], origin, canary=c)
                 ctext = rename_fn(ctext, cname)
@@ -1491,6 +1550,9 @@ class Assembler:
         for s in u.substs:
             if s["count"] == 0 and not s["opt"]:
                 raise Lost("subst at %s:%d matched nothing" % (u.vcpath, s["line"]))
+        for c in u.canaries:
+            if not c.get("used"):
+                raise Lost("canary at %s:%d names no function of this unit (%s)" % (u.vcpath, c["line"], c["fn"]))
         return self
 
     def find_fn_item(self, s, host):
@@ -1575,9 +1637,19 @@ class Assembler:
         p = fn_parts(body)
         bo = p["toks"][p["body_open"]].start
         tagged = "\n".join("/*@spec %s*/ %s" % (vctag(u, spec["line"] + 1 + k), l) for k, l in enumerate(spec["text"].split("\n"))) if spec["text"].strip() else ""
+        plain = body
         body = body[:bo].rstrip() + "\n" + tagged + "\n" + body[bo:]
         self.functions.append(dict(path=fnpath, origin=origin, has_spec=True, canary=False))
         self.emit(body, origin, fnpath)
+        # canaries of a slice: the same generated fn under the deliberately false contract
+        for c in self.u.canaries:
+            if c["fn"] == fnpath:
+                c["used"] = True
+                cname = fnpath + "__canary%d" % c["line"]
+                ctag = "\n".join("/*@spec %s*/ %s" % (vctag(u, c["line"] + 1 + k), l) for k, l in enumerate(c["text"].split("\n")))
+                ctext = rename_fn(plain[:bo].rstrip() + "\n" + ctag + "\n" + plain[bo:], cname)
+                self.functions.append(dict(path=cname, origin=origin, has_spec=True, canary=True))
+                self.emit(ctext, "canary of " + origin, cname)
 
     def render(self):
         out = []
